@@ -107,6 +107,11 @@ Qed.
 Lemma ple_total a b : ple a b = false -> ple b a = true.
 Proof. unfold ple. intros H. apply Z.leb_gt in H. apply Z.leb_le. lia. Qed.
 
+Lemma NoDup_app_l {T} (l1 l2 : list T) : NoDup (l1 ++ l2) -> NoDup l1.
+Proof.
+  induction l1 as [|a l1 IH]; intros H; [constructor|]. cbn [app] in H. inversion H as [|x l Hn Hd]; subst.
+  constructor; [|apply IH; exact Hd]. intros Hin. apply Hn. apply in_or_app. left; exact Hin.
+Qed.
 Lemma in_firstn {T} (x : T) n l : In x (firstn n l) -> In x l.
 Proof. intros H. rewrite <- (firstn_skipn n l). apply in_or_app. left; exact H. Qed.
 
@@ -186,7 +191,7 @@ Lemma sel_nodup : NoDup sel.
 Proof.
   destruct Hsp as [Hp _]. assert (NoDup perm) as Hnd.
   { apply (Permutation_NoDup (Permutation_sym Hp)). apply seq_NoDup. }
-  rewrite <- (firstn_skipn n perm) in Hnd. apply NoDup_app_remove_r in Hnd. exact Hnd.
+  rewrite <- (firstn_skipn n perm) in Hnd. apply NoDup_app_l in Hnd. exact Hnd.
 Qed.
 Lemma sel_sorted : StronglySorted kle sel.
 Proof.
@@ -234,16 +239,19 @@ Proof.
   assert (Hkey : forall i, (i < length rows)%nat -> key i = r_p (nth i rows dflt_rrow)).
   { intros i Hi. unfold key. rewrite nth_indep with (d' := r_p dflt_rrow) by (rewrite map_length; exact Hi).
     apply map_nth. }
+  assert (Hk : forall i, 0 < snd (key i)).
+  { intros i. destruct (Nat.lt_ge_cases i (length rows)) as [H|H].
+    - rewrite Hkey by exact H. apply Hpos. apply nth_In. exact H.
+    - unfold key. rewrite nth_overflow by (rewrite map_length; exact H). cbn. lia. }
   assert (Hsnd : map snd out = firstn n perm).
   { unfold out, gather. rewrite map_map. cbn [snd]. apply map_id. }
+  pose proof (sel_range key Hk (length rows) n perm Hsp Hn) as Hr.
   split; [|split; [|split; [|split]]].
-  - unfold out, gather. rewrite map_length. apply (sel_length key (length rows) n perm Hsp Hn).
+  - unfold out, gather. rewrite map_length. apply (sel_length key Hk (length rows) n perm Hsp Hn).
   - intros ri Hin. unfold out, gather in Hin. apply in_map_iff in Hin as [i [<- Hi]]. cbn [fst snd].
-    split; [apply (sel_range key (length rows) n perm Hsp i Hi)|reflexivity].
+    split; [apply Hr; exact Hi|reflexivity].
   - unfold out, gather.
     pose proof (sel_sorted key (length rows) n perm Hsp) as Hs.
-    assert (Hr : forall x, In x (firstn n perm) -> (x < length rows)%nat)
-      by (intros; apply (sel_range key (length rows) n perm Hsp); assumption).
     revert Hs Hr. generalize (firstn n perm) as l. induction l as [|a l IH]; intros Hs Hr; cbn [map]; [constructor|].
     apply StronglySorted_inv in Hs as [Hs Hf]. constructor.
     + apply IH; [exact Hs|intros; apply Hr; right; assumption].
@@ -252,6 +260,116 @@ Proof.
   - rewrite Hsnd. apply (sel_nodup key (length rows) n perm Hsp).
   - intros tt ri Ht Hnot Hin. rewrite Hsnd in Hnot.
     unfold out, gather in Hin. apply in_map_iff in Hin as [i [<- Hi]]. cbn [fst].
-    pose proof (sel_cutoff key (length rows) n perm Hsp tt i Ht Hnot Hi) as Hc. unfold kle in Hc.
-    rewrite !Hkey in Hc; [exact Hc|exact Ht|]. apply (sel_range key (length rows) n perm Hsp i Hi).
+    pose proof (sel_cutoff key Hk (length rows) n perm Hsp Hn tt i Ht Hnot Hi) as Hc. unfold kle in Hc.
+    rewrite !Hkey in Hc; [exact Hc|exact Ht|]. apply Hr. exact Hi.
+Qed.
+
+(* ================================================================== the table-driven model satisfies the spec *)
+Lemma fl_eqb_refl a : fl_eqb a a = true.
+Proof. unfold fl_eqb. rewrite !Z.eqb_refl. reflexivity. Qed.
+Lemma brow_eqb_refl full b : brow_eqb full b b = true.
+Proof. unfold brow_eqb. rewrite !fl_eqb_refl. destruct full; reflexivity. Qed.
+
+Lemma ascending_cons2 x y t : ascending (x :: y :: t) = fl_le x y && ascending (y :: t).
+Proof. reflexivity. Qed.
+Lemma ascending_of_SS {T} (f : T -> fl) (l : list T) :
+  StronglySorted (fun a b => fl_le (f a) (f b) = true) l -> ascending (map f l) = true.
+Proof.
+  induction l as [|a l IH]; intros H; [reflexivity|].
+  apply StronglySorted_inv in H as [Hs Hf]. destruct l as [|b l]; [reflexivity|].
+  change (map f (a :: b :: l)) with (f a :: f b :: map f l). rewrite ascending_cons2.
+  change (f b :: map f l) with (map f (b :: l)). rewrite IH by exact Hs.
+  rewrite Forall_forall in Hf. rewrite (Hf b) by (left; reflexivity). reflexivity.
+Qed.
+Lemma nodupb_of_NoDup l : NoDup l -> nodupb l = true.
+Proof.
+  induction 1 as [|x l Hn Hd IH]; [reflexivity|]. cbn [nodupb]. rewrite IH, andb_true_r.
+  apply negb_true_iff. destruct (existsb (Nat.eqb x) l) eqn:E; [|reflexivity].
+  apply existsb_exists in E as [y [Hy Exy]]. apply Nat.eqb_eq in Exy. subst. contradiction.
+Qed.
+Lemma forallb_combine_seq {T} (f : nat * T -> bool) (d : T) (l : list T) :
+  (forall k, (k < length l)%nat -> f (k, nth k l d) = true) ->
+  forallb f (combine (seq 0 (length l)) l) = true.
+Proof.
+  intros H. apply forallb_forall. intros [k x] Hin.
+  apply (In_nth _ _ (0%nat, d)) in Hin as [j [Hj E]].
+  rewrite combine_length, seq_length, Nat.min_id in Hj.
+  rewrite combine_nth in E by (rewrite seq_length; reflexivity).
+  rewrite seq_nth in E by exact Hj. injection E as <- <-. apply H. exact Hj.
+Qed.
+Lemma combine_map_self {A B} (g : A -> B) (l : list A) : combine l (map g l) = map (fun i => (i, g i)) l.
+Proof. induction l; cbn; auto. f_equal; auto. Qed.
+
+Lemma full_ok_model full ref : full_ok full ref (combine ref (seq 0 (length ref))) = true.
+Proof.
+  unfold full_ok.
+  assert (Hl : length (combine ref (seq 0 (length ref))) = length ref)
+    by (rewrite combine_length, seq_length; lia).
+  rewrite Hl, Nat.eqb_refl. cbn [andb]. rewrite <- Hl at 1.
+  apply (forallb_combine_seq _ (dflt_b, 0%nat)). rewrite Hl. intros k Hk. cbn [fst snd].
+  rewrite combine_nth by (rewrite seq_length; reflexivity). rewrite seq_nth by exact Hk. cbn [fst snd Nat.add].
+  rewrite Nat.eqb_refl, brow_eqb_refl. reflexivity.
+Qed.
+
+(* n_nearest on observed rows: every sorting permutation yields an outcome accepted by nn_ok *)
+Lemma nn_ok_sorting full (ref : list brow) perm n :
+  (forall b, In b ref -> 0 < snd (b_p b)) ->
+  sorting_perm (fun i => nth i (map b_p ref) (0, 1)) (length ref) perm -> (n <= length ref)%nat ->
+  nn_ok full ref n (bgather ref (firstn n perm)) = true.
+Proof.
+  intros Hpos Hsp Hn. set (key := fun i => nth i (map b_p ref) (0, 1)) in *.
+  assert (Hkey : forall i, (i < length ref)%nat -> key i = b_p (nth i ref dflt_b)).
+  { intros i Hi. unfold key. rewrite nth_indep with (d' := b_p dflt_b) by (rewrite map_length; exact Hi).
+    apply map_nth. }
+  assert (Hk : forall i, 0 < snd (key i)).
+  { intros i. destruct (Nat.lt_ge_cases i (length ref)) as [H|H].
+    - rewrite Hkey by exact H. apply Hpos. apply nth_In. exact H.
+    - unfold key. rewrite nth_overflow by (rewrite map_length; exact H). cbn. lia. }
+  pose proof (sel_range key Hk (length ref) n perm Hsp Hn) as Hr.
+  set (sel := firstn n perm) in *.
+  assert (Hsnd : map snd (bgather ref sel) = sel).
+  { unfold bgather. rewrite map_map. cbn [snd]. apply map_id. }
+  unfold nn_ok. rewrite !andb_true_iff. repeat split.
+  - unfold bgather. rewrite map_length. apply Nat.eqb_eq. apply (sel_length key Hk (length ref) n perm Hsp Hn).
+  - apply forallb_forall. intros r Hin. unfold bgather in Hin. apply in_map_iff in Hin as [i [<- Hi]].
+    cbn [fst snd]. rewrite brow_eqb_refl, andb_true_r. apply Nat.ltb_lt. apply Hr. exact Hi.
+  - unfold bgather. rewrite map_map. cbn [fst].
+    apply (ascending_of_SS (fun i => b_p (nth i ref dflt_b))).
+    pose proof (sel_sorted key (length ref) n perm Hsp) as Hs. fold sel in Hs.
+    revert Hs Hr. generalize sel as l. induction l as [|a l IH]; intros Hs Hr; [constructor|].
+    apply StronglySorted_inv in Hs as [Hs Hf]. constructor.
+    + apply IH; [exact Hs|intros; apply Hr; right; assumption].
+    + rewrite Forall_forall in *. intros b Hb. specialize (Hf b Hb). unfold kle, ple in Hf. unfold fl_le.
+      rewrite !Hkey in Hf; [exact Hf| |]; apply Hr; [right|left]; auto.
+  - rewrite Hsnd. apply nodupb_of_NoDup. apply (sel_nodup key (length ref) n perm Hsp).
+  - unfold bgather at 1. rewrite <- map_rev.
+    destruct (rev sel) as [|last rest] eqn:Erev; [reflexivity|]. cbn [map fst].
+    assert (Hlast : In last sel) by (apply in_rev; rewrite Erev; left; reflexivity).
+    apply forallb_forall. intros tt Ht. apply in_seq in Ht. rewrite Hsnd.
+    destruct (existsb (Nat.eqb tt) sel) eqn:Eex; [reflexivity|]. cbn [orb].
+    assert (Hnot : ~ In tt sel).
+    { intros Hin. assert (existsb (Nat.eqb tt) sel = true); [|congruence].
+      apply existsb_exists. exists tt. split; [exact Hin|apply Nat.eqb_refl]. }
+    pose proof (sel_cutoff key Hk (length ref) n perm Hsp Hn tt last ltac:(lia) Hnot Hlast) as Hc.
+    unfold kle, ple in Hc. unfold fl_le. rewrite !Hkey in Hc; [exact Hc|lia|apply Hr; exact Hlast].
+Qed.
+
+Theorem model_spec_ok13 : forall c, C13.Spec.spec_ok c (C13.Spec.model c) = true.
+Proof.
+  intros c. unfold C13.Spec.spec_ok. destruct (C13.Spec.wf c) eqn:Hwf; [|reflexivity].
+  unfold C13.Spec.wf in Hwf. rewrite !andb_true_iff in Hwf. destruct Hwf as [[Href Hidx] Hnn].
+  unfold C13.Spec.model. rewrite map_length, Nat.eqb_refl. cbn [andb].
+  rewrite combine_map_self. apply forallb_forall. intros ir Hin. apply in_map_iff in Hin as [i [<- Hi]].
+  cbn [fst snd]. rewrite forallb_forall in Hidx. specialize (Hidx i Hi). apply Nat.ltb_lt in Hidx.
+  set (ref := nth i (c_ref c) []).
+  assert (Hrefin : In ref (c_ref c)) by (apply nth_In; exact Hidx).
+  rewrite forallb_forall in Href. specialize (Href ref Hrefin). apply andb_true_iff in Href as [Hlen Hpos].
+  destruct (c_nn c) as [n|].
+  - apply andb_true_iff in Hnn as [_ Hn]. apply Nat.leb_le in Hn. apply Nat.eqb_eq in Hlen.
+    apply nn_ok_sorting.
+    + intros b Hb. rewrite forallb_forall in Hpos. specialize (Hpos b Hb). lia.
+    + rewrite <- (map_length b_p ref). apply argsort_sorting.
+      intros p Hp. apply in_map_iff in Hp as [b [<- Hb]]. rewrite forallb_forall in Hpos. specialize (Hpos b Hb). lia.
+    + lia.
+  - apply full_ok_model.
 Qed.
